@@ -36,11 +36,18 @@ type job struct {
 	run func() any
 }
 
-type jobList struct{ jobs []job }
+type jobList struct {
+	jobs    []job
+	lateCtr uint64
+}
 
 func (j *jobList) addFlow(sc FlowScenario) {
 	s := sc
 	normaliseZero(&s)
+	j.lateCtr++
+	if j.lateCtr%2 == 0 { // every second flow scenario: some connections are made during the run (see Conn.Late)
+		lateify(&s, j.lateCtr*0x9E3779B97F4A7C15)
+	}
 	j.jobs = append(j.jobs, job{fam: "flow", sc: &s, run: func() any { return execFlowScenario(&s) }})
 }
 
